@@ -119,55 +119,110 @@ def keep(parts):
 
 
 # ================================================================================================ _search_dirs
-def _sel():
-    """sel(d, i): the kept paths among the first i glob results of directory d;  tot(j): all kept paths of dirs[0..j)."""
-    return (z3.Function("c20_sel", PATH.sort(), I, PATHS.sort()), z3.Function("c20_tot", I, PATHS.sort()))
+# From the property: "return exactly the FILES with the requested suffix whose path relative to the component directory has no part
+# starting with `_` (except a file named __init__.py) and no hidden part, EACH ONCE".  Stated over the result list as a set with
+# multiplicities (an earlier version defined the result as the concatenation of the per-directory selections - the code's own
+# shape - and thereby accepted directories among the results and the same file twice for overlapping directories).
+def is_file(p):
+    return ops.uf("path_is_file", PATH.sort(), B)(p)
 
 
-def _rel_parts(run_or_none, d, glob, i):
-    g = glob_paths(d, glob)
-    return parts_of(rel_to(path_of_str(g[i]), d))
+REG.stub(("method", "Path", "is_file"), lambda run, obj, args, kwargs, node: Val(TBool, is_file(obj.t)))
+
+
+def gpath(d, glob, i):
+    return path_of_str(glob_paths(d, glob)[i])
+
+
+def public_file(p, d):
+    """DEFINED as  keep(parts of p relative to d) and p is a file.  The bookkeeping invariants carry it as an atom; the defining
+    equation is instantiated for each (path, directory) pair the code examines (at `path.relative_to(directory)`), which is where
+    the code's own tests have to be related to it."""
+    return ops.uf("c20_public_file_of", PATH.sort(), PATH.sort(), B)(p, d)
+
+
+def public_file_def(p, d):
+    return z3.And(keep(parts_of(rel_to(p, d))), is_file(p))
+
+
+def _relative_to(run, obj, args, kwargs, node):
+    d = _to_path(run, args[0])
+    run.assume(public_file(obj.t, d.t) == public_file_def(obj.t, d.t))        # definitional instance
+    return Val(PATH, rel_to(obj.t, d.t))
+
+
+REG.stub(("method", "Path", "relative_to"), _relative_to)
+
+
+def ok(d, glob, i):
+    """the i-th glob result of directory d is a public file of d"""
+    return public_file(gpath(d, glob, i), d)
+
+
+def _wj():
+    return z3.Function("c20_first_public_occurrence_dir", PATH.sort(), I)
+
+
+def _wi():
+    return z3.Function("c20_first_public_occurrence_idx", PATH.sort(), I)
+
+
+def _lex_le(j1, i1, j2, i2):
+    return z3.Or(j1 < j2, z3.And(j1 == j2, i1 <= i2))
 
 
 def _sd_entry(run, fr):
     dirs, glob = fr.vars["dirs"].t, fr.vars["search_glob"].t
-    sel, tot = _sel()
     d = z3.FreshConst(PATH.sort(), "d")
     i, j = z3.FreshConst(I, "i"), z3.FreshConst(I, "j")
-    g = lambda dd: glob_paths(dd, glob)
-    parts = lambda dd, k: parts_of(rel_to(path_of_str(g(dd)[k]), dd))
+    parts = parts_of(rel_to(gpath(d, glob, i), d))
+    wj, wi = _wj(), _wi()
+    p = gpath(dirs[j], glob, i)
+    in_range = lambda jj, ii: z3.And(0 <= jj, jj < z3.Length(dirs), 0 <= ii, ii < z3.Length(glob_paths(dirs[jj], glob)))
     for ax in (
-        z3.ForAll([d], sel(d, 0) == z3.Empty(PATHS.sort())),
-        z3.ForAll([d, i], z3.Implies(z3.And(0 <= i, i < z3.Length(g(d))),
-                                     sel(d, i + 1) == z3.If(keep(parts(d, i)), z3.Concat(sel(d, i), z3.Unit(path_of_str(g(d)[i]))), sel(d, i)))),
-        tot(0) == z3.Empty(PATHS.sort()),
-        z3.ForAll([j], z3.Implies(z3.And(0 <= j, j < z3.Length(dirs)), tot(j + 1) == z3.Concat(tot(j), sel(dirs[j], z3.Length(g(dirs[j])))))),
         # A-DJ (glob): every result lies below the searched directory (>= 1 relative part) and has no hidden part
-        z3.ForAll([d, i], z3.Implies(z3.And(0 <= i, i < z3.Length(g(d))), z3.And(z3.Length(parts(d, i)) >= 1, z3.Not(hidden(parts(d, i)))))),
+        z3.ForAll([d, i], z3.Implies(z3.And(0 <= i, i < z3.Length(glob_paths(d, glob))), z3.And(z3.Length(parts) >= 1, z3.Not(hidden(parts))))),
+        # definitional: (wj p, wi p) is the FIRST place (directory index, result index) at which the path p occurs as a public
+        # file - it exists whenever p occurs as one at all (least element of a non-empty set of pairs; conservative)
+        z3.ForAll([j, i], z3.Implies(z3.And(in_range(j, i), ok(dirs[j], glob, i)),
+                                     z3.And(in_range(wj(p), wi(p)), gpath(dirs[wj(p)], glob, wi(p)) == p, ok(dirs[wj(p)], glob, wi(p)),
+                                            _lex_le(wj(p), wi(p), j, i))), patterns=[gpath(dirs[j], glob, i)]),
     ):
         run.pc.append(ax)
 
 
+def _in(L, p):
+    return z3.Contains(L, z3.Unit(p))
+
+
+def _sd_state(c, m, j, i):
+    """m holds, each once, exactly the public files among the results of dirs[0..j) and the first i results of dirs[j]"""
+    dirs, glob = c.old("dirs").t, c.old("search_glob").t
+    wj, wi = _wj(), _wi()
+    a, b, j2, i2 = z3.Const("bv_a", I), z3.Const("bv_b", I), z3.Const("bv_j2", I), z3.Const("bv_i2", I)
+    before = lambda jj, ii: z3.And(0 <= jj, 0 <= ii, ii < z3.Length(glob_paths(dirs[jj], glob)), z3.Or(jj < j, z3.And(jj == j, ii < i)), jj < z3.Length(dirs))
+    return z3.And(
+        # each once
+        z3.ForAll([a, b], z3.Implies(z3.And(0 <= a, a < b, b < z3.Length(m)), m[a] != m[b])),
+        # only public files: every element occurs as a public file of a directory already searched (witness: its first such place)
+        z3.ForAll([a], z3.Implies(z3.And(0 <= a, a < z3.Length(m)),
+                                  z3.And(before(wj(m[a]), wi(m[a])), m[a] == gpath(dirs[wj(m[a])], glob, wi(m[a])), ok(dirs[wj(m[a])], glob, wi(m[a]))))),
+        # all of them
+        z3.ForAll([j2, i2], z3.Implies(z3.And(before(j2, i2), ok(dirs[j2], glob, i2)), _in(m, gpath(dirs[j2], glob, i2)))))
+
+
 def _outer_inv(c):
-    sel, tot = _sel()
-    return c["matched_files"].t == tot(c["_i0"].t)
+    return z3.And(c["dirs"].t == c.old("dirs").t, _sd_state(c, c["matched_files"].t, c["_i0"].t, z3.IntVal(0)))
 
 
 def _inner_inv(c):
-    sel, tot = _sel()
-    d = _to_path_term(c["directory"])
-    return c["matched_files"].t == z3.Concat(tot(c["_i0"].t), sel(d, c["_i1"].t))
+    dirs = c.old("dirs").t
+    return z3.And(c["dirs"].t == dirs, _to_path_term(c["directory"]) == dirs[c["_i0"].t], c["_seq1"].t == glob_paths(dirs[c["_i0"].t], c.old("search_glob").t),
+                  _sd_state(c, c["matched_files"].t, c["_i0"].t, c["_i1"].t))
 
 
 def _to_path_term(v):
     return v.t if v.ty == PATH else path_of_str(v.t)
-
-
-def _sd_post_no_hidden_no_private(c):
-    """Every returned file is a glob result of one of the directories whose relative path has no private / hidden part.
-    (Stated over the spec functions: tot(len(dirs)) is by definition the in-order concatenation of the kept results.)"""
-    sel, tot = _sel()
-    return c["result"].t == tot(z3.Length(c.old("dirs").t))
 
 
 REG.contract(
@@ -176,7 +231,7 @@ REG.contract(
     modifies=[], raises={},
     loops={0: Loop(inv=[_outer_inv], variant="len(dirs) - _i0"),
            1: Loop(inv=[_inner_inv], variant="len(_seq1) - _i1")},
-    ensures={"exactly_the_public_files_each_once_in_order": _sd_post_no_hidden_no_private},
+    ensures={"exactly_the_public_files_of_the_directories_each_once": lambda c: _sd_state(c, c["result"].t, z3.Length(c.old("dirs").t), z3.IntVal(0))},
 )
 
 
@@ -240,12 +295,19 @@ def _replay_search_dirs(model, ob):
         for suffix in (".py", ".js", ".txt", ""):
             search_glob = f"**/*{suffix}" if suffix else "**/*"
             got = [str(Path(p).relative_to(root)) for p in _search_dirs(dirs, search_glob)]
-            got = [g for g in got if (root / g).is_file()]          # `**/*` also yields directories (callers filter them)
             want = sorted(f"{d}/{rel}" for d in ("d1", "d2") for rel in rels if rel.endswith(suffix) and public(rel))
             if sorted(got) != want or len(got) != len(set(got)):
                 extra, missing = sorted(set(got) - set(want)), sorted(set(want) - set(got))
                 return {"confirmed": True, "function": "_search_dirs", "inputs": {"tree (per directory)": rels, "search_glob": search_glob},
                         "expected": f"{len(want)} public files", "observed": f"extra: {extra[:6]} missing: {missing[:6]} duplicates: {len(got) - len(set(got))}"}
+        # directories nested in one another (directly, and below an underscore directory): public relative to SOME directory, each once
+        nested = [root / "d1", root / "d1" / "pkg", root / "d1" / "_priv"]
+        got = [str(Path(p).relative_to(root)) for p in _search_dirs(nested, "**/*.py")]
+        want = sorted({f"d1/{rel}" for rel in rels if rel.endswith(".py") and (public(rel) or any(rel.startswith(n + "/") and public(rel[len(n) + 1:]) for n in ("pkg", "_priv")))})
+        if sorted(got) != want:
+            extra, missing = sorted(set(got) - set(want)), sorted(set(want) - set(got))
+            return {"confirmed": True, "function": "_search_dirs", "inputs": {"tree": rels, "dirs": ["d1", "d1/pkg", "d1/_priv"], "search_glob": "**/*.py"},
+                    "expected": f"{len(want)} public files, each once", "observed": f"extra: {extra[:6]} missing: {missing[:6]} duplicates: {len(got) - len(set(got))}"}
     finally:
         shutil.rmtree(root, ignore_errors=True)
     return {"confirmed": False}
